@@ -49,7 +49,7 @@ func topLevelNames(stmts []any) []string {
 		switch m["k"] {
 		case "def", "var", "vari", "const":
 			add(m["n"])
-		case "constg", "global", "destr":
+		case "constg", "global", "destr", "param", "paramv":
 			for _, n := range seqOf(m["ns"]) {
 				add(n)
 			}
@@ -136,11 +136,16 @@ func init() {
 						}
 					}()
 					mk := func() (*ugo.Eval, ugo.Map) {
+						// the arguments the session is started with
+						var args []ugo.Object
+						for _, a := range c.Prog.Args {
+							args = append(args, semValueObj(a.(N)))
+						}
 						if nilGlobals {
-							return ugo.NewEval(ugo.CompilerOptions{ModuleMap: moduleMapOf(c.Prog), NoOptimize: noopt}, nil), nil
+							return ugo.NewEval(ugo.CompilerOptions{ModuleMap: moduleMapOf(c.Prog), NoOptimize: noopt}, nil, args...), nil
 						}
 						g := ugo.Map{"log": ugo.Array{}}
-						return ugo.NewEval(ugo.CompilerOptions{ModuleMap: moduleMapOf(c.Prog), NoOptimize: noopt}, g), g
+						return ugo.NewEval(ugo.CompilerOptions{ModuleMap: moduleMapOf(c.Prog), NoOptimize: noopt}, g, args...), g
 					}
 					sess, g := mk()
 					end := 0
